@@ -171,6 +171,8 @@ func scenarios(tier string) []*hn.Scenario {
 			Pipe("t1", "p1", "m", "s"), cancel, 2, true)
 		// no-op removals (an id that was never registered; the same id twice) must not disturb what is registered
 		add(hn.NewBuilder("D remove-unknown-id").Std("t1", "p1", P, D).RemovePipe("t1", "ghost"), cancel, 2, true)
+		add(hn.NewBuilder("D remove-unknown-id, two registered").Std("t1", "p1", P, D).Std("t1", "p2", R, D).RemovePipe("t1", "ghost"), cancel, 2, true)
+		add(hn.NewBuilder("D remove-twice, two remain").Std("t1", "p1", P, D).Std("t1", "p2", R, D).Std("t1", "p3", P, D).RemovePipe("t1", "p3").RemovePipe("t1", "p3"), cancel, 1, true)
 		add(hn.NewBuilder("D remove-twice-then-register").Std("t1", "p1", P, D).RemovePipe("t1", "p1").RemovePipe("t1", "p1").
 			Std("t1", "p2", R, D), cancel, 2, true)
 		add(hn.NewBuilder("D remove-unknown-of-other-type").Std("t1", "p1", P, D).Std("t2", "p1", P, D).RemovePipe("t2", "ghost").RemovePipe("t2", "p1").RemovePipe("t2", "p1"), cancel, 2, true)
